@@ -127,6 +127,10 @@ func deepCopy(v interface{}) interface{} {
 			out[k] = deepCopy(e)
 		}
 		return out
+	case json.RawMessage:
+		return append(json.RawMessage(nil), t...)
+	case []byte:
+		return append([]byte(nil), t...)
 	default:
 		return v
 	}
@@ -271,6 +275,19 @@ func sigValue(b *strings.Builder, v interface{}, docIDs map[uintptr]bool, depth 
 		} else {
 			b.WriteString("ACC{set:fn}")
 		}
+	case json.RawMessage:
+		// an undecoded part is the caller's memory like a container of its documents: identity
+		if len(t) == 0 {
+			b.WriteString("raw/0")
+			return
+		}
+		fmt.Fprintf(b, "raw@%p/%d", &t[0], len(t))
+	case []byte:
+		if len(t) == 0 {
+			b.WriteString("bytes/0")
+			return
+		}
+		fmt.Fprintf(b, "bytes@%p/%d", &t[0], len(t))
 	default:
 		canonTo(b, v, 0)
 	}
